@@ -53,6 +53,45 @@ def build_top(spec):
     return o, reg
 
 
+def make_input(inp, tops):
+    import emdfile
+    k = inp['kind']
+    if k == 'arr':
+        return np.full((3,) * inp['rank'], inp['tok'], dtype=np.int64)
+    if k == 'dict':
+        return {'tok': inp['tok']}
+    if k == 'md':
+        return emdfile.Metadata(name=inp['name'], data={'tok': inp['tok']})
+    if k in ('list', 'tuple'):
+        items = []
+        for it in inp['items']:
+            if it['kind'] == 'top':
+                items.append(node_at(tops[it['top']][0], it['tp']))
+            else:
+                items.append(make_input(it, tops))
+        return items if k == 'list' else tuple(items)
+    raise ValueError(k)
+
+
+def snap_tops(tops):
+    """what the caller can observe of its objects: shape, names, roots, payload tokens, metadata"""
+    out = []
+    for top, reg in tops:
+        ids = {id(o): p for p, o in reg.items()}
+        for p, o in sorted(reg.items()):
+            a = abs_rnode(o, 79)
+            out.append((p, type(o).__name__, o.name, ids.get(id(o._root), None if o._root is None else 'foreign'),
+                        tuple(o._branch._dict.keys()), a['tok'], tuple((k, m.name, id(m), t) for (k, t), m in zip(a['mds'], o._metadata.values()))))
+    return out
+
+
+def first_diff(a, b):
+    for x, y in zip(a, b):
+        if x != y:
+            return {'before': repr(x)[:300], 'after': repr(y)[:300]}
+    return {'len': [len(a), len(b)]}
+
+
 def node_at(top, tp):
     o = top
     for k in tp:
@@ -211,8 +250,14 @@ def run_scenario(sc, scratch, keep_objects=False):
                     os.remove(p)
             obs.append({'slot': abs_slot(p)})
         elif st['op'] == 'save':
-            top, reg = tops[st['top']]
-            target = node_at(top, st['tp'])
+            inp = st.get('input')
+            if inp is None:
+                top, reg = tops[st['top']]
+                target = node_at(top, st['tp'])
+            else:
+                target = make_input(inp, tops)
+            list_before = list(target) if isinstance(target, (list, tuple)) else None
+            snap_before = snap_tops(tops)
             p = fpath(st['file'])
             before_sha = sha(p)
             raised, exc = False, None
@@ -225,6 +270,20 @@ def run_scenario(sc, scratch, keep_objects=False):
             except BaseException as e:
                 raised, exc = True, type(e).__name__ + ': ' + str(e)[:120]
             o = {'raised': raised, 'exc': exc, 'slot': abs_slot(p), 'sha_before': before_sha, 'sha_after': sha(p)}
+            snap_after = snap_tops(tops)
+            o['objects_unchanged'] = (snap_before == snap_after)
+            if not o['objects_unchanged']:
+                o['objects_diff'] = first_diff(snap_before, snap_after)
+            if list_before is not None:
+                o['list_unchanged'] = (len(target) == len(list_before) and all(a is b for a, b in zip(target, list_before)))
+            if st.get('readd'):
+                # an unrooted node must still be addable to a tree afterwards
+                try:
+                    import emdfile as _e
+                    r_ = _e.Root(name='probe'); r_.add_to_tree(target); target._root = None; del r_._branch[target.name]
+                    o['readd_ok'] = True
+                except BaseException as e:
+                    o['readd_ok'] = False
             # the package's own detector on every H5 slot after a successful save
             if not raised:
                 try:
@@ -305,6 +364,24 @@ class Em:
             c = 'CNode'
         return f"(RN {c} {self.I.s(t['name'])} {coqZ(t['tok'])} {t['rank']} {mds} {coqlist([self.rnode(k) for k in t['kids']])})"
 
+    def input(self, inp):
+        k = inp['kind']
+        if k == 'arr':
+            return f"(IArr {coqZ(inp['tok'])} {inp['rank']})"
+        if k == 'dict':
+            return f"(IDict {coqZ(inp['tok'])})"
+        if k == 'md':
+            return f"(IMd {self.I.s(inp['name'])} {coqZ(inp['tok'])})"
+        items = []
+        for it in inp['items']:
+            if it['kind'] == 'top':
+                items.append(f"LTop {it['top']} {self.path(it['tp'])}")
+            elif it['kind'] == 'arr':
+                items.append(f"LArr {coqZ(it['tok'])} {it['rank']}")
+            else:
+                items.append(f"LDict {coqZ(it['tok'])}")
+        return f"(IList {coqlist(items)})"
+
     def tree_opt(self, t):
         return {True: '(Some true)', False: '(Some false)', None: 'None'}[t]
 
@@ -330,7 +407,10 @@ class Em:
             elif st['op'] == 'save':
                 ep = 'None' if st.get('emdpath') is None else f"(Some {self.I.s(st['emdpath'])})"
                 wa = f"(WA {self.I.s(st['mode'])} {self.tree_opt(st['tree'])} {ep})"
-                steps.append(f"SSave {st['file']} {st['top']} {self.path(st['tp'])} {wa} {coqbool(o['raised'])} {self.slot(o['slot'])}")
+                if st.get('input') is None:
+                    steps.append(f"SSave {st['file']} {st['top']} {self.path(st['tp'])} {wa} {coqbool(o['raised'])} {self.slot(o['slot'])}")
+                else:
+                    steps.append(f"SSaveIn {st['file']} {self.input(st['input'])} {wa} {coqbool(o['raised'])} {self.slot(o['slot'])}")
             else:
                 ep = 'None' if st.get('emdpath') is None else f"(Some {self.I.s(st['emdpath'])})"
                 steps.append(f"SRead {st['file']} {ep} {self.tree_opt(st['tree'])} {self.oread(o)}")
@@ -351,7 +431,7 @@ def emit(cases, results, shard=120):
     return shards
 
 
-COQ_IMPORTS = 'From Emd Require Import Base.Prelude Model.H5 Model.Emd Model.Reader Corr.XTree.'
+COQ_IMPORTS = 'From Emd Require Import Base.Prelude Model.H5 Model.Emd Model.EmdList Model.Reader Corr.XTree.'
 CASETY = 'tcase'
 CHECKFN = 'check'
 
